@@ -162,7 +162,18 @@ def run_case(case):
         args = ["--driver", case["driver"], "-w", str(case.get("w", 2)), "-r"] + (["--gitignore"] if case["use"] else []) + case.get("extra", [])
         args += [case.get("srcarg", "src")] + (["src2"] if two else []) + ["dst"]
         args = [a.replace("@ROOT@", root) for a in args]
-        run = core.run_plain(core.xcp_argv(args), root)
+        # the user's own git configuration must not speak: xcp runs with a HOME that holds global excludes naming entries of
+        # this very tree (through ~/.config/git/ignore and through core.excludesFile), which only the root .gitignore may exclude
+        dhome = os.path.join(sb.aux, "decoy-home")
+        os.makedirs(os.path.join(dhome, ".config", "git"), exist_ok=True)
+        present = sorted({os.path.basename(e["p"]) for e in case["spec"] if e["p"] != "src"})[:6]
+        with open(os.path.join(dhome, ".config", "git", "ignore"), "wb") as f:
+            f.write(b("\n".join(present[:3] + ["*.txt", ".hidden"]) + "\n"))
+        with open(os.path.join(dhome, "excl"), "wb") as f:
+            f.write(b("\n".join(present[3:] + ["*.o", "notes"]) + "\n"))
+        with open(os.path.join(dhome, ".gitconfig"), "w") as f:
+            f.write("[core]\n\texcludesFile = %s\n" % os.path.join(dhome, "excl"))
+        run = core.run_plain(["env", "HOME=" + dhome, "XDG_CONFIG_HOME=" + os.path.join(dhome, ".config")] + core.xcp_argv(args), root)
         if run.verdict != "exited":
             res["inconc"].append("run-" + run.verdict)
             return res
